@@ -17,7 +17,7 @@ from fractions import Fraction
 from harness.core import Case, ImplResult, frac
 
 PID = 'C09'
-LEAN_MODULES = ['ThermoVerif.Props.C09', 'ThermoVerif.Props.C09Store']
+LEAN_MODULES = ['ThermoVerif.Props.C09', 'ThermoVerif.Props.C09Store', 'ThermoVerif.Props.C09Array']
 RULE = ('operation histories on shared SparseVector / SparseLogicalVector / SparseArray objects; values are dyadic '
         'rationals (exact in binary64), divisors ±2^j; every run enumerates the operand-kind × operator × '
         'shape-relation grid completely (vector, logical vector and array targets, binary / in-place / reflected, '
